@@ -69,6 +69,8 @@ def cases(tier):
         for d in ('d2', 'd3'):
             for re in ('lam', 'turb'):
                 out.append(dict(base, design=d, core=7, re=re, wall='none', eqT=True, power='asym'))
+                out.append(dict(base, design=d, core=7, re=re, wall='none', ducts='2f'))
+                out.append(dict(base, design=d, core=7, re=re, wall='no_flow', ducts='2w'))
         for ca in (True,):
             for du in ('1', '2f'):
                 for re in ('vlow', 'lam'):
@@ -258,15 +260,20 @@ def probe_region(reg, dz, adiabatic, T0, h_gap, Tp=None):
     nd = reg.temp['duct_mw'].shape[1]
     ng = nd
     tp = T0 if Tp is None else Tp
+    # constant-property coolant (Tp None): the region is probed in the state the Reactor's set-up left it
+    # in (correlated parameters of its own flow at the inlet temperature) - what the first step of the march
+    # uses; refreshing them here would hide parameters that belong to another assembly
     if reg.is_rodded:
-        reg._update_coolant_int_params(tp, use_mat_tracker=False) if _has_kw(reg) else \
-            reg._update_coolant_int_params(tp)
-        if reg.n_bypass > 0:
-            reg._update_coolant_byp_params([tp] * reg.n_bypass)
-            reg._update_coolant(tp)
+        if Tp is not None:
+            reg._update_coolant_int_params(tp, use_mat_tracker=False) if _has_kw(reg) else \
+                reg._update_coolant_int_params(tp)
+            if reg.n_bypass > 0:
+                reg._update_coolant_byp_params([tp] * reg.n_bypass)
+                reg._update_coolant(tp)
         q = {'pins': None, 'cool': None, 'duct': None, 'refl': None}
     else:
-        reg._update_coolant_params(tp)
+        if Tp is not None:
+            reg._update_coolant_params(tp)
         q = {'refl': 0.0}
     hg = np.array(h_gap, dtype=float)
     pin = Pin([reg.coolant, reg.duct], tp)
